@@ -106,6 +106,8 @@ def run_all(repo, tier):
         for names in itertools.permutations(NAMES, k):
             if tier != "thorough" and k == 2 and names[0] > names[1] and "web-app" not in names:
                 continue
+            if k == 3 and names not in (("a", "b1", "web-app"), ("web-app", "a", "z" * 63), ("b1", "z" * 63, "a")):
+                continue  # thorough tier: three of the 24 orderings of three names (about 80 000 archives)
             for secs in itertools.product(SECRETS, repeat=k):
                 for gens in itertools.product(GENS, repeat=k):
                     for pw in PASSWORDS:
@@ -154,7 +156,7 @@ def run(tier, seed, repo):
                                    "+ encryption.encrypt / decrypt / _derive_key (real files; the `cryptography` primitives are a "
                                    "stand-in package)", "backend": "bounded"}],
         "assumptions": [
-            f"BOUNDED, not proved: every ordered choice of up to {2 if tier != 'thorough' else 3} of the deployment names "
+            f"BOUNDED, not proved: every ordered choice of up to 2 {'(and three orderings of 3) ' if tier == 'thorough' else ''}of the deployment names "
             f"{[x if len(x) < 10 else x[:3] + '...(63)' for x in NAMES]} (valid DNS-1035 labels), each with one of "
             f"{len(SECRETS)} secret maps (absent, empty, plain, YAML-ambiguous strings, multi-line / non-ASCII incl. non-BMP / ': ' / '#' / tab / quote "
             f"values and keys) and one of {len(GENS)} generations (absent, 0, 7), under the passwords {PASSWORDS!r} ({n} archives)",
